@@ -5,7 +5,10 @@ race-free between point operations and never self-deadlock (DESIGN 3/C10).  Two 
     reads / writes which fields?) are EXTRACTED FROM THE TREE UNDER TEST on every run (harness/c10/extract.go,
     go/ast) and handed to TLC as a JSON constant.  TLC explores, per type, every public method alone and every
     pair of point operations on two threads, all interleavings: NoSelfDeadlock, NoMutualDeadlock, NoLeak,
-    NoDataRace.  A violation here is a PREDICTION about the code; it is confronted with real behaviour before
+    NoDataRace.  (One part of the extraction is path-sensitive: the count of explicit Lock / Unlock calls on the receiver
+    is followed through branches; a return reached with the lock taken and no Unlock deferred becomes a step "exit" at
+    which TLC may end the call -- NoLeak; a predicted leak must show as a Size() probe that does not come back.)
+    A violation here is a PREDICTION about the code; it is confronted with real behaviour before
     anything is reported (a predicted self-deadlock must show as a watchdog timeout of that very method, a
     predicted race as a race-detector report for that very pair of methods); prediction and behaviour that do
     not agree are a machinery failure (exit 2), never a violation -- unless the behaviour itself was already
@@ -30,11 +33,15 @@ race-free between point operations and never self-deadlock (DESIGN 3/C10).  Two 
     and reached, fresh and existing keys alternating): returned | panicked | timeout; the specification has no action
     for timeout, nor for a lock that stayed taken.  A method taking another instance of its own type is also handed
     its own receiver (state "self") and run crosswise on two instances from two goroutines in lockstep rounds (state
-    "cross").  A hang anywhere ends as a recorded Timeout event, never as a driver timeout (hangs are capped per type).
+    "cross").  Every method is also called once with each set of unusual arguments (states "zero": 0, "", nil, empty
+    slices; "neg": -1, nil slices; "none": the instance's NONE sentinel); every state is followed by Size() under the
+    watchdog: a lock left taken is a probe that does not come back.  A hang anywhere ends as a recorded Timeout event, never as a driver timeout (hangs are capped per type).
 (A3) Trace_Linearize: thousands of concurrent histories per type in four shapes (mix: 2-4 goroutines x 3-6 random
     point operations on three hot keys sharing a bucket; duel: a populated instance and the same one or two
     operations meeting themselves, mostly in lockstep rounds; grow: the default table re-hashing under lookups; block:
-    several consumers in the blocking dequeue of either queue, fewer elements per broadcast than waiters), one-bucket
+    several consumers in the blocking dequeue of either queue, fewer elements per broadcast than waiters; herd: both queues
+    again, 2-3 consumers parked in / churning through blocking dequeues while one producer trickles in exactly enough
+    elements, several times the usual number of histories), one-bucket
     tables that re-hash constantly, bounds that evict, GOMAXPROCS all/1/2/4 and injected yields / sleeps; invocation /
     response order from one atomic counter; accepted iff TLC finds linearization points (silent Lin steps, DFS queue,
     high-water mark) and the final content is the one the linearization leaves.  The point operations TLC lists as
@@ -104,13 +111,21 @@ def parse_predictions(out):
             mutual.add((ty, names[0]) + tuple(sorted(names[1:3])))
         else:
             other.add((kind, ty, tuple(names)))
+    # a call that ends with the lock taken (scenario "alone": one name); the same leak seen again in the two-thread
+    # scenarios of that method says nothing new
+    leaks = {(ty, ns[0]) for kind, ty, ns in other if kind == "LEAK" and len(ns) == 1}
+    other = {(kind, ty, ns) for kind, ty, ns in other
+             if not (kind == "LEAK" and (len(ns) == 1 or any((ty, n) in leaks for n in ns)))}
+    parse_predictions.leaks = leaks
     return dead, races, other, splits, mutual
 
 
 # What TLC must say about spec/LockDiscipline_selftest.json (one readers-writer type RW: Get / Size read under a shared
 # hold, GetLRU WRITES under a shared hold, Put writes under the exclusive lock, Contains takes the shared lock and calls
 # Get (nested shared), Upgrade takes shared then exclusive, PutAll(other) holds its own lock while calling other.Size()).
+# Leaky takes the exclusive lock, has an early return that keeps it (step "exit") and releases on its other path.
 SELFTEST_EXPECTED = dict(
+    leaks={("RW", "Leaky")},
     dead={("RW", "Upgrade"), ("RW", "PutAll")},
     races={("RW", "GetLRU", "GetLRU"), ("RW", "Get", "GetLRU"), ("RW", "Contains", "GetLRU")},
     mutual={("RW", "pair", "Contains", "Put"), ("RW", "pair", "Contains", "PutAll"), ("RW", "cross", "PutAll", "PutAll")},   # PutAll: a batch of puts, paired with the point operations like a put
@@ -123,7 +138,7 @@ def spec_selftest(run, workers):
     if not r["clean"] or "generated" not in r:
         raise vf.MachineryError("self-test of LockDiscipline.tla did not run:\n" + vf.tail(r["out"], 40))
     dead, races, other, splits, mutual = parse_predictions(r["out"])
-    got = dict(dead=dead, races=races, mutual=mutual, other=other)
+    got = dict(dead=dead, races=races, mutual=mutual, other=other, leaks=set(parse_predictions.leaks))
     if got != SELFTEST_EXPECTED:
         raise vf.MachineryError("LockDiscipline.tla does not give the expected verdicts on the self-test table: got %s" % got)
     run.mc_runs.append(dict(module="MC_LockDiscipline", cfg="MC_LockDiscipline_predict.cfg", table="LockDiscipline_selftest.json", states=r["distinct"],
@@ -147,6 +162,7 @@ def model_check(run, workers):
     dead, races, other, mutual = set(), set(), set(), set()
     splits = parse_predictions(r["out"])[3]
     opencb = set(parse_predictions.opencb)
+    leaks = set()
     if r["clean"]:
         if zero:
             raise vf.MachineryError("vacuity: actions never taken by MC_LockDiscipline: %s" % zero)
@@ -164,16 +180,20 @@ def model_check(run, workers):
             raise vf.MachineryError("prediction run of MC_LockDiscipline failed:\n" + vf.tail(r2["out"], 40))
         dead, races, other, splits, mutual = parse_predictions(r2["out"])
         opencb |= parse_predictions.opencb
-        if not (dead or races or other or mutual):
+        leaks = set(parse_predictions.leaks)
+        if not (dead or races or other or mutual or leaks):
             raise vf.MachineryError("TLC refuted %s but the prediction run lists nothing" % m.group(1))
-        rec["predicted"] = dict(self_deadlocks=sorted(map(list, dead)), data_races=len(races), mutual_deadlocks=sorted(map(list, mutual)), other=sorted(map(str, other)))
+        rec["predicted"] = dict(self_deadlocks=sorted(map(list, dead)), leaked_locks=sorted(map(list, leaks)), data_races=len(races), mutual_deadlocks=sorted(map(list, mutual)), other=sorted(map(str, other)))
         run.mc_states += r2["distinct"]
         run.mc_transitions += r2["generated"]
+        if leaks:
+            vf.log("PREDICTED by TLC on the extracted table: %d public methods that can end with the instance lock taken %s" % (len(leaks), sorted(leaks)[:8]))
         vf.log("PREDICTED by TLC on the extracted table: %d self-deadlocks %s, %d racing pairs of point operations, %d pairs of calls waiting for each other %s, %d other"
                % (len(dead), sorted(dead)[:6], len(races), len(mutual), sorted(mutual)[:4], len(other)))
     rec["point_operations_made_of_several_critical_sections"] = sorted(map(list, splits))
     rec["public_methods_running_caller_code_between_two_critical_sections"] = sorted(map(list, opencb))
     model_check.opencb = opencb
+    model_check.leaks = leaks
     run.mc_runs.append(rec)
     return dead, races, other, splits, mutual
 
@@ -274,6 +294,15 @@ def body(run):
     seen_cross = {(e["t"],) + tuple(sorted([e["m"], e.get("with", "")])) for e in hangs if e.get("on") == "cross"}
     pred_cross = {(ty, a, b) for ty, kind, a, b in mutual if kind == "cross"}
     pred_pair = {(ty, a, b) for ty, kind, a, b in mutual if kind != "cross"}
+    # a predicted leak (a return path that keeps the lock: step "exit" of the table, NoLeak refuted by TLC) must show on
+    # the real code: that method called in one of the watchdog states (ordinary and unusual arguments), then Size()
+    # under the watchdog does not come back.  (The other direction needs no table: such an Outcome has no action.)
+    leaked_seen = {(e["t"], e["m"]) for e in events(out, "watchdog") if e.get("ev") == "Outcome" and e.get("then") == "timeout"}
+    run.extra["static_predictions_leaked_locks"] = dict(predicted=sorted(map(list, model_check.leaks)),
+                                                        confirmed_by_a_probe_that_did_not_return=sorted(map(list, model_check.leaks & leaked_seen)))
+    if model_check.leaks - leaked_seen:
+        raise vf.MachineryError("TLC predicts public methods that can end with the instance lock taken; no call of them in any watchdog "
+                                "state left the lock taken (table too coarse, or arguments that do not reach the path): %s" % sorted(model_check.leaks - leaked_seen))
     if seen - dead:
         raise vf.MachineryError("calls that did not return although the extracted table predicts no self-deadlock for them "
                                 "(table incomplete, or the machine stalled): %s" % sorted(seen - dead))
